@@ -588,7 +588,8 @@ def fit_init_guess(ctx, cls, guess, sill):
 
 # --- weights ----------------------------------------------------------------------------------------
 @contract(P, "fit_variogram/weights-passed-as-sigma",
-          params=[{"weights": w, "data": d} for w in ("none", "inv", "list", "callable") for d in ("iso", "dir")],
+          params=[{"weights": w, "data": d} for w in ("none", "inv", "list", "pylist", "callable") for d in ("iso", "dir")] +
+                 [{"weights": w, "data": d} for w in ("list", "callable") for d in ("dir,anis=off", "dir,anis=fix")],
           functions=FN, nsamples=2, search=20, timeout=20)
 def fit_weights(ctx, weights, data):
     x = [ctx.real("x%d" % i, lo=0.3 + i, hi=0.9 + i) for i in range(2)]
@@ -599,10 +600,11 @@ def fit_weights(ctx, weights, data):
         ctx.require(ctx.gt(v, 0))
     c = ctx.real("wc", lo=0.5, hi=2.0)
     ctx.require(ctx.gt(c, 0))
-    arg = {"none": None, "inv": "inv", "list": arr(ctx, w), "callable": (lambda xs: c + xs * xs)}[weights]
-    dim = 2 if data == "dir" else 1
-    R = run_fit(ctx, "Gaussian", dim, {}, "none", 1, anis_mode="fit", directional=(data == "dir"), x=arr(ctx, x),
-                weights=arg, check=())
+    arg = {"none": None, "inv": "inv", "list": arr(ctx, w), "pylist": list(w), "callable": (lambda xs: c + xs * xs)}[weights]
+    # per-bin weights belong to every direction of a directional variogram, whether the anisotropy is fitted or not
+    dim = 2 if data.startswith("dir") else 1
+    R = run_fit(ctx, "Gaussian", dim, {}, "none", 1, anis_mode=data[9:] if "," in data else "fit",
+                directional=data.startswith("dir"), x=arr(ctx, x), weights=arg, check=())
     rec = R["ghost"].rec
     xs = list(x) * dim
     if weights == "none":
@@ -613,7 +615,7 @@ def fit_weights(ctx, weights, data):
     ctx.ensure("sigma-shape", ctx.shape_eq(sig, (len(xs),)))
     if weights == "inv":        # 'inv': inverse distance 1 / (x_data + 1)
         want = [1 / (1 / (v + 1)) for v in xs]
-    elif weights == "list":     # weights given per bin (the same for every direction)
+    elif weights in ("list", "pylist"):     # weights given per bin, as ndarray or (as documented) as list (the same for every direction)
         want = [1 / v for v in list(w) * dim]
     else:                       # callable: weights = f(x_data)
         want = [1 / (c + v * v) for v in xs]
